@@ -336,6 +336,72 @@ def enums_and_vars(ck, bindgen, tmp, quick):
         if not m or m.group(1).replace("_", "").strip() != v:
             ck.violation("C05-const-var:" + k, "const variable does not carry the C value", {"header": open(h).read(), "name": k, "expected": v, "emitted": m.group(0) if m else None})
     ck.sample({"const_vars_checked": sorted(expect)})
+    float_family(ck, bindgen, tmp)
+
+
+def float_family(ck, bindgen, tmp):
+    """floating macros and const variables: the bit pattern rustc gives the emitted constant must be the one clang computes
+    (both sides executed; values around every formatting boundary: signs, huge / tiny / subnormal magnitudes, exponent forms, suffixes)"""
+    r = ck.rng
+    lits = ["0.0", "-0.0", "1.0", "-1.0", "0.1", "-0.1", "1.5e10", "-1.5e10", "1e15", "1e16", "-1e16", "1e17", "-1e17", "9.999999e15", "1e-4", "1e-5", "-1e-5", "1e-6", "-1e-6", "-0.000001",
+            "6.02214076e23", "-6.02214076e23", "1.7976931348623157e308", "-1.7976931348623157e308", "2.2250738585072014e-308", "-2.2250738585072014e-308", "4.9406564584124654e-324",
+            "-4.9406564584124654e-324", "123456789.125", "-123456789.125", "3.0e0", "0x1.8p3", "-0x1.8p-3", "1e300", "-1e300", "1e-300", "-1e-300", ".5", "5.", "1e+2"]
+    for _ in range(20):
+        m = r.randrange(1, 10 ** 9)
+        e = r.randrange(-320, 305)
+        lits.append("%s%d.%de%d" % (r.choice(["", "-"]), m % 10, m // 10, e))
+    names, h = [], ""
+    for i, l in enumerate(lits):
+        h += "#define FM%d %s\n" % (i, l if not l.startswith("-") else "(%s)" % l)
+        h += "static const double fv%d = %s;\n" % (i, l)
+        names += [("FM%d" % i, "f64"), ("fv%d" % i, "f64")]
+        if abs(float.fromhex(l) if "0x" in l else float(l)) < 3e38 and "e-3" not in l:
+            h += "static const float ff%d = %sf;\n" % (i, l if "." in l or "e" in l or "p" in l else l + ".0")
+            names.append(("ff%d" % i, "f32"))
+    d = os.path.join(tmp, "floats")
+    os.makedirs(d)
+    open(os.path.join(d, "f.h"), "w").write(h)
+    csrc = '#include <stdio.h>\n#include <string.h>\n#include <stdint.h>\n#include "f.h"\nint main(void) {\n'
+    for n, t in names:
+        if t == "f64":
+            csrc += '  { double v = %s; uint64_t b; memcpy(&b, &v, 8); printf("%s %%016llx\\n", (unsigned long long)b); }\n' % (n, n)
+        else:
+            csrc += '  { float v = %s; uint32_t b; memcpy(&b, &v, 4); printf("%s %%016llx\\n", (unsigned long long)b); }\n' % (n, n)
+    csrc += "  return 0; }\n"
+    open(os.path.join(d, "p.c"), "w").write(csrc)
+    rc, o, e = sh2(["clang", "-std=gnu11", "-w", "-o", "p", "p.c"], cwd=d, timeout=120)
+    if rc != 0:
+        raise TieBroken("c05-float-probe", e[-800:])
+    rc, cout, e = sh2(["./p"], cwd=d, timeout=60)
+    cvals = dict(l.split() for l in cout.splitlines())
+    rc, out, err = sh2([bindgen, os.path.join(d, "f.h"), "--no-layout-tests"], timeout=120)
+    if rc != 0:
+        ck.violation("C05-float-bindgen-failed", "bindgen fails on a header of floating constants", {"stderr": err[-500:]})
+        return
+    emitted = dict(re.findall(r"pub const (\w+): ([\w:]+) =", out))
+    rs = "#![allow(warnings)]\n" + out + "\nfn main() {\n"
+    for n, t in names:
+        if n in emitted:
+            rs += '    println!("%s {:016x}", (%s).to_bits() as u64);\n' % (n, n)
+    rs += "}\n"
+    open(os.path.join(d, "m.rs"), "w").write(rs)
+    rc, o, e = sh2(["rustc", "--edition", "2021", "-A", "warnings", "-o", "m", "m.rs"], cwd=d, timeout=300)
+    if rc != 0:
+        ck.violation("C05-float-constants-do-not-compile", "the emitted floating constants are rejected by rustc", {"header": h[:1500], "rustc": re.findall(r"^error.*$", e, re.M)[:3]})
+        return
+    rc, rout, e = sh2(["./m"], cwd=d, timeout=60)
+    rvals = dict(l.split() for l in rout.splitlines())
+    for n, t in names:
+        ck.evaluations += 1
+        ck.nontrivial.add(("float", n, lits[int(re.sub(r"\D", "", n))]))
+        if n not in rvals:
+            continue       # omitted: allowed (a macro bindgen cannot evaluate must be left out)
+        if emitted.get(n) not in ("f64", "f32") or (emitted[n] == "f32") != (t == "f32"):
+            ck.violation("C05-float-type", "a floating constant is emitted with a type of another width", {"name": n, "literal": lits[int(re.sub(r"\D", "", n))], "emitted_type": emitted.get(n)})
+        elif rvals[n] != cvals[n]:
+            ck.violation("C05-float-value", "a floating constant does not carry the C compiler's value (bit patterns differ)",
+                         {"name": n, "literal": lits[int(re.sub(r"\D", "", n))], "clang_bits": cvals[n], "rust_bits": rvals[n], "emitted": (re.search(r"pub const %s: [^;]*;" % n, out) or [None])[0]})
+    ck.notes["float_constants_compared"] = len([n for n, _ in names if n in rvals])
 
 
 def replay(ck, path):
